@@ -65,6 +65,12 @@ func (ms *mapStruct) ptr(offset int64, l int32) ([]byte, error) {
 	if windowSize < len+alignFudge {
 		windowSize = alignedLength(len + alignFudge)
 	}
+	if windowStart+windowSize > ms.fileSize && ms.fileSize-windowStart >= len+alignFudge {
+		// Rounding up must not extend the window beyond the end of the
+		// file: reading there hits EOF, which is reported as “file has
+		// changed mid-transfer” (rsync/fileio.c:map_ptr zero-fills instead).
+		windowSize = ms.fileSize - windowStart
+	}
 	if windowSize > ms.pSize {
 		win := make([]byte, windowSize)
 		copy(win, ms.window)
